@@ -103,13 +103,16 @@ def r03_1_skip_set(ctx):
     applies = q.calls_named(f.node, "apply_global_optimizations", into_nested=False)
     a = q.one(assigns, f"{f.fq}: assignment of _skip_slots")
     ap = q.one(applies, f"{f.fq}: apply_global_optimizations call")
+    opts = q.name_assigned_from(f.node, q.is_call_to("CompileOptions"), "the CompileOptions object in _compile_impl")
+    cs = q.one(q.calls_named(f.node, "compileSubroutine", into_nested=False), f"{f.fq}: compileSubroutine call")
+    starts = u(cs.args[3]) if len(cs.args) > 3 else "subroutine_start_blocks"
     ga = q.nguards(a)
     gp = q.nguards(ap)
     opt_guard = [g_ for g_ in gp if "optimize_scratch_slots" in g_[0]]
-    ctx.check(isinstance(a.value, ast.Call) and q.last_name(a.value) == "collect_unoptimized_slots" and u(a.value.args[0]) == "subroutine_start_blocks" and ga == gp and bool(opt_guard) and q.dominates(a, ap), "R03.1", "_compile_impl:skip-set-fresh", f"the skip set must be recomputed from this compilation's routine graphs, unconditionally inside the optimisation branch and before the optimiser runs (assignment guards {ga}, optimiser guards {gp})", f"{f.module.rel}:{a.lineno}", fact={"guards": ga})
+    ctx.check(isinstance(a.value, ast.Call) and q.last_name(a.value) == "collect_unoptimized_slots" and u(a.value.args[0]) == starts and ga == gp and bool(opt_guard) and q.dominates(a, ap), "R03.1", "_compile_impl:skip-set-fresh", f"the skip set must be recomputed from this compilation's routine graphs, unconditionally inside the optimisation branch and before the optimiser runs (assignment guards {ga}, optimiser guards {gp})", f"{f.module.rel}:{a.lineno}", fact={"guards": ga})
     loop = [x for x in q.ancestors(ap) if isinstance(x, ast.For)]
-    ctx.check(bool(loop) and u(loop[0].iter) == "subroutine_start_blocks.values()" and u(ap.args[0]) == u(loop[0].target), "R03.1", "_compile_impl:every-routine", "the optimiser must be applied to every routine's start block", f"{f.module.rel}:{ap.lineno}", fact={})
-    ctx.check(len(ap.args) >= 3 and u(ap.args[1]) == "options.optimize" and u(ap.args[2]) == "self.version", "R03.1", "_compile_impl:optimizer-args", "apply_global_optimizations(start, options.optimize, self.version)", f"{f.module.rel}:{ap.lineno}", fact={"args": [u(x) for x in ap.args]})
+    ctx.check(bool(loop) and u(loop[0].iter) == f"{starts}.values()" and u(ap.args[0]) == u(loop[0].target), "R03.1", "_compile_impl:every-routine", "the optimiser must be applied to every routine's start block", f"{f.module.rel}:{ap.lineno}", fact={})
+    ctx.check(len(ap.args) >= 3 and u(ap.args[1]) == f"{opts}.optimize" and u(ap.args[2]) == "self.version", "R03.1", "_compile_impl:optimizer-args", "apply_global_optimizations(start, options.optimize, self.version)", f"{f.module.rel}:{ap.lineno}", fact={"args": [u(x) for x in ap.args]})
     ctx.require_min("R03.1", 6)
 
 
